@@ -28,7 +28,7 @@ from .judge import judge
 RULE = ("cases = every grid and every score table of HyperTuner.tla's bounded space (from the TLC dump), fed to the real "
         "ParameterGrid / HyperTuner (+ seeded larger tables in thorough); distinct = (kind, grid shape or (points, trials, "
         "direction, has tie in the optimal mean))")
-KEYS = ["ka", "kb", "kc"]
+KEYS = ["Kb", "ka", "kc"]        # in plain sorted order; a case-insensitive sort would order them ka, Kb, kc
 
 
 def grid_to_param(grid):
